@@ -153,8 +153,10 @@ def run(ctx):
         patches = [x for x in pis if list(x.args.values())[:1] == [const('>L')] and len(x.args) == 4 and
                    list(x.args.values())[1] == D and list(x.args.values())[2] == const(24) and
                    same(list(x.args.values())[3], ('call', 'builtins.len', NONE, (('#0', D),)))]
-        ctx.check(len(patches) == 1 and not patches[0].pc and patches[0].seq < c.seq, 'E1',
-                  'sender: the total length is patched into the header (offset 24) before the MAC is computed',
+        from .c05 import header_length_form
+        form = header_length_form(T, D)
+        ctx.check(form is not None and (form[0] == 'direct' or form[1].seq < c.seq), 'E1',
+                  'sender: the total length is in the header (offset 24) before the MAC is computed',
                   key=('E1', 'length-before-mac'), site=ctx.site(tb, c.node))
         icvw = [x for x in pis if x not in patches]
         ok = len(icvw) == 1
